@@ -611,7 +611,27 @@ func VerifC15StaticChecks() {
 	ctx := context.Background()
 	vcfg("fifo", 1)
 	vcfg("selectfirst", 1)
-	kind := vchoose("kind", 7)
+	kind := vchoose("kind", 8)
+	if kind == 7 { // static values on END, well typed and ill typed
+		ill := vchoose("ill", 2) == 1
+		w2 := NewWorkflow[int, c15SV]()
+		w2.AddLambdaNode("s", InvokableLambda(func(ctx context.Context, in int) (c15Src, error) { return c15Src{A: 1}, nil })).AddInput(START)
+		e := w2.End().AddInput("s", MapFieldPaths(FieldPath{"A"}, FieldPath{"F"}))
+		if ill {
+			e.SetStaticValue(FieldPath{"G"}, 12)
+		} else {
+			e.SetStaticValue(FieldPath{"G"}, "g")
+		}
+		r2, err := w2.Compile(ctx)
+		if ill {
+			vassert(err != nil, "an ill-typed static value on END is rejected at Compile")
+			return
+		}
+		vassert(err == nil, "a static value on END compiles")
+		out, rerr := r2.Invoke(ctx, 0)
+		vassert(rerr == nil && out.F == 1 && out.G == "g", "END receives the mapped and the static value")
+		return
+	}
 	wf := NewWorkflow[int, int]()
 	wf.AddLambdaNode("s", InvokableLambda(func(ctx context.Context, in int) (c15Src, error) { return c15Src{A: 1, B: "b"}, nil })).AddInput(START)
 	var got *c15SV
